@@ -71,6 +71,22 @@ def conc(v, m, depth=0, seen=None):
         if getattr(live, "order_hint", None) == "rest-first":
             items.reverse()
         return {"__dict__": items, "map": live.name}
+    if type(v).__name__ == "SSet":
+        live = v
+        vals = set()
+        for kt in live.touched:
+            try:
+                if z3.is_true(_ev(m, z3.Select(live.base_has, kt))):
+                    vals.add(_ev(m, kt).as_long())
+            except Exception:
+                pass
+        n = _ev(m, live.base_card).as_long()
+        k = 0
+        while len(vals) < n and k < 4096:  # fill up to the model's cardinality with members of the model's array
+            if k not in vals and z3.is_true(_ev(m, z3.Select(live.base_has, z3.IntVal(k)))):
+                vals.add(k)
+            k += 1
+        return {"__set__": sorted(vals)}
     if type(v).__name__ == "SColl":
         live = getattr(v, "live", v)
         out = []
